@@ -167,7 +167,16 @@ where
         let mut cols = build_aux_columns::<B, E>(&self.desc, x, &main, rands, &lag);
         if let Some((c, r)) = self.aux_corrupt {
             if c < cols.len() && r < cols[c].len() {
-                cols[c][r] += E::ONE;
+                let mode = AUX_MODE.with(|m| m.get());
+                if mode == 5 {
+                    // the whole column scaled by 2: homogeneous relations between its cells (running products,
+                    // the Lagrange kernel transition constraints) survive, only the boundary constraints do not
+                    for x in cols[c].iter_mut() {
+                        *x = *x + *x;
+                    }
+                } else {
+                    cols[c][r] += aux_delta::<E>(mode);
+                }
             }
         }
         let pubs = match &self.forced_pubs {
@@ -176,6 +185,41 @@ where
         };
         *self.aux_check.lock().unwrap() = Some(check_aux::<B, E>(&self.desc, &main, &cols, rands, &lag, &pubs));
         ColMatrix::new(cols)
+    }
+}
+
+// ------------------------------------------------------------------------------------ aux corruption value
+thread_local! {
+    static AUX_MODE: std::cell::Cell<u8> = std::cell::Cell::new(0);
+}
+
+/// how the corrupted auxiliary cell is changed: 0 adds ONE, 1 adds an element whose base-field coordinate is
+/// zero (a difference visible in the extension coordinates only; ONE for the base field itself), 2 adds 2,
+/// 3 adds 2^32, 4 subtracts ONE, 5 doubles the WHOLE column
+pub fn set_aux_mode(mode: u8) {
+    AUX_MODE.with(|m| m.set(mode));
+}
+
+fn aux_delta<E: FieldElement>(mode: u8) -> E {
+    match mode {
+        1 => {
+            // coordinates (0, 1, 1, …): built from the canonical bytes of the element
+            let eb = <E::BaseField as FieldElement>::ELEMENT_BYTES;
+            if E::ELEMENT_BYTES == eb {
+                return E::ONE;
+            }
+            let mut bytes = vec![0u8; E::ELEMENT_BYTES];
+            let mut at = eb;
+            while at < E::ELEMENT_BYTES {
+                bytes[at] = 1;
+                at += eb;
+            }
+            <E as winter_utils::Deserializable>::read_from_bytes(&bytes).unwrap_or(E::ONE)
+        },
+        2 => E::ONE + E::ONE,
+        3 => E::from(1u32 << 16) * E::from(1u32 << 16),
+        4 => -E::ONE,
+        _ => E::ONE,
     }
 }
 
